@@ -155,12 +155,13 @@ EXPECT_DEC = {
     "edts": ("DecodeEdts", "container-twin+accerr", False), "sinf": ("DecodeSinf", "container-twin+accerr", False),
     "moov": ("DecodeMoov", "container-body", False), "moof": ("DecodeMoof", "container-body+accerr", False),
     # separately written
-    "trun": ("DecodeTrun", "separate", True), "senc": ("DecodeSenc", "separate", True), "mdat": ("DecodeMdat", "separate", True),
+    "trun": ("DecodeTrun", "separate", True), "senc": ("DecodeSenc", "separate", True), "mdat": ("DecodeMdat", "body-fn", True),
     "stsd": ("DecodeStsd", "separate", False), "mfhd": ("DecodeMfhd", "separate", True), "tfdt": ("DecodeTfdt", "separate", True),
     "free": ("DecodeFree", "raw-body", True), "skip": ("DecodeFree", "raw-body", True), "cdat": ("DecodeCdat", "raw-body", True),
-    "vtte": ("DecodeVtte", "pure-twin", True), "emeb": ("DecodeEmeb", "pure-twin", True), "avcC": ("DecodeAvcC", "separate", True), "dref": ("DecodeDref", "separate", False),
-    "mp4a": ("DecodeAudioSampleEntry", "separate", False), "vttc": ("DecodeVttc", "separate", False), "styp": ("DecodeStyp", "separate", True),
-    "dac3": ("DecodeDac3", "separate", True), "hvcC": ("DecodeHvcC", "separate", True),
+    "vtte": ("DecodeVtte", "pure-twin", True), "emeb": ("DecodeEmeb", "pure-twin", True), "avcC": ("DecodeAvcC", "body-fn", True), "dref": ("DecodeDref", "separate", False),
+    "mp4a": ("DecodeAudioSampleEntry", "separate", False), "vttc": ("DecodeVttc", "separate", False), "styp": ("DecodeStyp", "raw-body", True),
+    "dac3": ("DecodeDac3", "body-fn+accerr", True), "hvcC": ("DecodeHvcC", "body-fn", True), "dec3": ("DecodeDec3", "body-fn+accerr", True),
+    "av1C": ("DecodeAv1C", "body-fn", True),
 }
 EXPECT_ENC = {
     "BtrtBox": "delegating", "TrunBox": "delegating", "TfhdBox": "delegating", "FtypBox": "delegating", "MvhdBox": "delegating",
@@ -169,8 +170,11 @@ EXPECT_ENC = {
     "VtteBox": "header", "EmebBox": "header",
     "File": "twin", "Fragment": "twin", "MediaSegment": "twin", "InitSegment": "twin", "MoofBox": "twin", "Av1CBox": "twin", "HvcCBox": "twin",
     "MdatBox": "separate", "StsdBox": "separate", "VisualSampleEntryBox": "separate", "AudioSampleEntryBox": "separate",
-    "SencBox": "separate", "DrefBox": "separate", "MetaBox": "separate", "TrepBox": "separate", "WvttBox": "separate",
+    "SencBox": "prelude", "DrefBox": "separate", "MetaBox": "separate", "TrepBox": "separate", "WvttBox": "separate",
 }
+
+# prelude-delegating encoders: type -> the prelude method (idempotent: C03_enc_prelude_agree)
+ENC_PRELUDES = {"SencBox": "setSubSamplesUsedFlag"}
 
 # Mutations of a scratch copy of the sources: (file, old text, new text, box type, what the extractor must then say).
 # Each rewrites one decoder / encoder by hand with a subtle difference; run on EVERY check (the extractor is re-tested on
@@ -220,6 +224,23 @@ MUTATIONS = [
      "\tsr := bits.NewFixedSliceReader(data)\n\tchildren, err := DecodeContainerChildrenSR(hdr, startPos+8, startPos+hdr.Size, sr)",
      "\tsr := bits.NewFixedSliceReader(data)\n\tchildren, err := DecodeContainerChildrenSR(hdr, startPos+8, startPos+hdr.Size-0, sr)",
      "dec", "moov", ("separate", None)),
+    ("dac3-sr-reads-less", "mp4/dac3.go", "\tdata := sr.ReadBytes(hdr.payloadLen())\n\tif sr.AccError() != nil {\n\t\treturn nil, sr.AccError()\n\t}\n\treturn decodeDac3FromData(data)",
+     "\tdata := sr.ReadBytes(hdr.payloadLen() - 0)\n\tif sr.AccError() != nil {\n\t\treturn nil, sr.AccError()\n\t}\n\treturn decodeDac3FromData(data)",
+     "dec", "dac3", ("separate", None)),
+    ("dec3-sr-other-function", "mp4/dec3.go", "\tif sr.AccError() != nil {\n\t\treturn nil, sr.AccError()\n\t}\n\treturn decodeDec3FromData(data)",
+     "\tif sr.AccError() != nil {\n\t\treturn nil, sr.AccError()\n\t}\n\treturn decodeDec3FromData(data[:len(data)-0])",
+     "dec", "dec3", ("separate", None)),
+    ("avcc-sr-uses-reader-twice", "mp4/avcc.go", "\tavcDecConfRec, err := avc.DecodeAVCDecConfRec(sr.ReadBytes(hdr.payloadLen()))\n\tif err != nil {\n\t\treturn nil, err\n\t}",
+     "\tavcDecConfRec, err := avc.DecodeAVCDecConfRec(sr.ReadBytes(hdr.payloadLen()))\n\tif err != nil {\n\t\treturn nil, err\n\t}\n\t_ = sr.ReadUint8()",
+     "dec", "avcC", ("separate", None)),
+    ("hvcc-sr-swallows-error", "mp4/hvcc.go", "\thevcDecConfRec, err := hevc.DecodeHEVCDecConfRec(sr.ReadBytes(hdr.payloadLen()))\n\treturn &HvcCBox{hevcDecConfRec}, err",
+     "\thevcDecConfRec, _ := hevc.DecodeHEVCDecConfRec(sr.ReadBytes(hdr.payloadLen()))\n\treturn &HvcCBox{hevcDecConfRec}, nil",
+     "dec", "hvcC", ("separate", None)),
+    ("styp-guard-differs", "mp4/styp.go", "\tif hdr.payloadLen() < 8 {", "\tif hdr.payloadLen() < 4 {",
+     "dec", "styp", ("separate", None)),
+    ("senc-encode-other-prelude", "mp4/senc.go", "\ts.setSubSamplesUsedFlag()\n\tsw := bits.NewFixedSliceWriter(int(s.Size()))",
+     "\ts.readButNotParsed = false\n\tsw := bits.NewFixedSliceWriter(int(s.Size()))",
+     "enc", "SencBox", ("separate", None)),
     ("btrt-encode-by-hand", "mp4/btrt.go", "\tsw := bits.NewFixedSliceWriter(int(b.Size()))\n\terr := b.EncodeSW(sw)",
      "\tsw := bits.NewFixedSliceWriter(int(b.Size()) + 0)\n\terr := b.EncodeSW(sw)",
      "enc", "BtrtBox", ("separate", None)),
@@ -263,12 +284,10 @@ def dec_coverage(d, L):
         if d["R"] in L["c03_delegating_nonrelative_proved"]:
             return True, "pair-theorem"
         return d["R"] in L["c03_delegating_nonrelative_explored"], "explored"
-    if c == "container-twin":
-        if not d["accerr"]:
-            return True, "framing"
-        return d["R"] in L["c03_twin_accerr_explored"], "explored"
-    if c in ("container-body", "pure-twin", "raw-body"):
+    if c in ("container-twin", "container-body", "pure-twin", "raw-body"):
         return True, "framing"
+    if c == "body-fn":
+        return True, "pair-theorem"
     if d["R"] in L["c03_separate_proved"]:
         return True, "pair-theorem"
     return d["R"] in L["c03_separate_explored"], "explored"
@@ -278,6 +297,9 @@ def enc_coverage(e, L):
     c = e["class"]
     if c in ("delegating", "container", "header"):
         return True, {"delegating": "enc-delegate", "container": "framing", "header": "framing"}[c]
+    if c == "prelude":
+        # the prelude method must be the one whose idempotence the theorem instantiates
+        return e["type"] in L["c03_enc_prelude_proved"] and ENC_PRELUDES.get(e["type"]) == e["why"], "enc-delegate"
     if c == "twin":
         if e["type"] in L["c03_enc_twin_proved"]:
             return True, "framing"
@@ -288,7 +310,7 @@ def enc_coverage(e, L):
 
 
 def class_str(d):
-    return d["class"] + ("+accerr" if d.get("accerr") and d["class"].startswith("container") else "")
+    return d["class"] + ("+accerr" if d.get("accerr") and (d["class"].startswith("container") or d["class"] == "body-fn") else "")
 
 
 def source_facts(ctx, exe):
@@ -321,7 +343,7 @@ def source_facts(ctx, exe):
         ecov[c] = ecov.get(c, 0) + 1
         if not ok:
             offenders.append({"box_type": e["type"], "function": "%s.Encode (%s)" % (e["type"], e["pos"]), "class": "enc-" + e["class"],
-                              "relative": None, "reason": "Encode is %s, not a call of its own EncodeSW: %s" % (e["class"], e["why"])})
+                              "relative": None, "reason": "Encode is %s, not a call of its own EncodeSW (or its prelude is not a listed idempotent method): %s" % (e["class"], e["why"])})
     # expectations
     by_key = {d["key"]: d for d in decs}
     exp_bad = []
@@ -366,7 +388,8 @@ def run_mutations(ctx, exe, decs0, encs0):
     base_dec = {d["key"]: class_str(d) for d in decs0}
     base_enc = {e["type"]: e["class"] for e in encs0}
     pre = {"btrt": "delegating", "tfhd": "delegating", "stts": "delegating", "mvhd": "delegating", "ftyp": "delegating", "CoLL": "delegating",
-           "colr": "delegating", "kind": "delegating", "emsg": "delegating", "free": "raw-body", "emeb": "pure-twin", "dinf": "container-twin", "moov": "container-body",
+           "colr": "delegating", "kind": "delegating", "emsg": "delegating", "dac3": "body-fn+accerr", "dec3": "body-fn+accerr", "avcC": "body-fn", "hvcC": "body-fn",
+           "styp": "raw-body", "SencBox": "prelude", "free": "raw-body", "emeb": "pure-twin", "dinf": "container-twin", "moov": "container-body",
            "BtrtBox": "delegating", "DinfBox": "container", "MoofBox": "twin"}
     base = os.path.join(common.BUILD, "c03-mut-%d" % os.getpid())
     res = {"applied": 0, "detected": 0, "skipped": 0, "results": [], "missed": []}
